@@ -1,6 +1,7 @@
 package j5convert
 
 import (
+	"fmt"
 	"strings"
 
 	"github.com/iancoleman/strcase"
@@ -8,6 +9,7 @@ import (
 	"github.com/pentops/j5/gen/j5/client/v1/client_j5pb"
 	"github.com/pentops/j5/gen/j5/ext/v1/ext_j5pb"
 	"github.com/pentops/j5/gen/j5/schema/v1/schema_j5pb"
+	"github.com/pentops/j5/gen/j5/sourcedef/v1/sourcedef_j5pb"
 	"github.com/pentops/j5/internal/j5s/sourcewalk"
 	"google.golang.org/genproto/googleapis/api/annotations"
 	"google.golang.org/protobuf/proto"
@@ -156,6 +158,11 @@ func (ww *conversionVisitor) visitServiceMethodNode(service *serviceBuilder, nod
 		proto.SetExtension(methodBuilder.desc.Options, ext_j5pb.E_Method, method.Options)
 	}
 
+	if err := ww.checkListMethod(method); err != nil {
+		ww.addError(node.Source, err)
+		return
+	}
+
 	if method.ListRequest != nil {
 		// (j5.list.v1.list_request) extends MessageOptions: proto.SetExtension
 		// panics when it is set on the method's options.
@@ -163,4 +170,60 @@ func (ww *conversionVisitor) visitServiceMethodNode(service *serviceBuilder, nod
 		return
 	}
 	service.desc.Method = append(service.desc.Method, methodBuilder.desc)
+}
+
+// checkListMethod mirrors j5client: a method whose request holds a
+// j5.list.v1.QueryRequest is a list method, the client builds its list request
+// (the searchable, filterable and sortable fields) from the one array of
+// objects in the response, and fails when it can't find it.
+func (ww *conversionVisitor) checkListMethod(method *sourcedef_j5pb.APIMethod) error {
+	isListMethod := false
+	for _, prop := range method.Request.Properties {
+		ref := prop.GetSchema().GetObject().GetRef()
+		if ref == nil {
+			continue
+		}
+		// expands import aliases, unknown packages were reported with the field.
+		expanded := ww.root.importAliases.expand(ref)
+		if expanded != nil && expanded.ref.Package == "j5.list.v1" && expanded.ref.Schema == "QueryRequest" {
+			isListMethod = true
+			break
+		}
+	}
+	if !isListMethod {
+		return nil
+	}
+
+	if method.Response == nil {
+		return fmt.Errorf("list method %s: a method with a j5.list.v1.QueryRequest in the request must have a response with exactly one array of objects (the method has no response)", method.Name)
+	}
+
+	var arrays []*schema_j5pb.ObjectProperty
+	for _, prop := range method.Response.Properties {
+		if prop.GetSchema().GetArray() != nil {
+			arrays = append(arrays, prop)
+		}
+	}
+	if len(arrays) != 1 {
+		return fmt.Errorf("list method %s: the response must have exactly one array of objects (found %d arrays)", method.Name, len(arrays))
+	}
+
+	// an inline object was replaced with a reference when the response was walked.
+	items := arrays[0].Schema.GetArray().GetItems()
+	if items.GetObject() == nil {
+		return fmt.Errorf("list method %s: the items of the response array %s must be objects (found %s)", method.Name, arrays[0].Name, fieldTypeName(items))
+	}
+
+	return nil
+}
+
+// fieldTypeName is the name of the field's type as written in j5s: string,
+// object, oneof, enum...
+func fieldTypeName(field *schema_j5pb.Field) string {
+	refl := field.ProtoReflect()
+	which := refl.WhichOneof(refl.Descriptor().Oneofs().ByName("type"))
+	if which == nil {
+		return "no type"
+	}
+	return string(which.Name())
 }
